@@ -135,8 +135,8 @@ def h4(ctx):
     rets = [strip_role(b.role_of_rvalue(d["rv"])) if d["kind"] == "assign" else ("call", d["call"].callee.name, "", [strip_role(b.role_of_operand(a)) for a in d["call"].args], d["bb"]) for d in b.defs().get(0, [])]
     ok_t = any(r[0] == "call" and r[1] == "clone" and r[3] and strip_role(r[3][0]) == ("param", "t") for r in rets) or any(r == ("param", "t") for r in rets)
     ctx.check(ok_t, "replaced-by-t", "a matching subterm is replaced by t", "do_term_subst no longer returns t for a matching subterm", where_of(b))
-    rec = [c for c in b.calls if c.callee and c.callee.target == b.id]
-    okr = all(strip_role(b.role_of_operand(c.args[2])) == ("param", "x") and strip_role(b.role_of_operand(c.args[3])) == ("param", "t") for c in rec) and bool(rec)
+    rec = [c for c in b.all_calls() if c.callee and c.callee.target == b.id]      # also inside a closure handed to a rebuild helper
+    okr = all(strip_role(c.body.role_of_operand(c.args[2])) == ("param", "x") and strip_role(c.body.role_of_operand(c.args[3])) == ("param", "t") for c in rec) and bool(rec)
     ctx.check(okr, "recursion-same-x-t", "children are substituted with the same x and t", "the recursive calls of do_term_subst change x or t", where_of(b))
 
 
